@@ -28,7 +28,7 @@ META = {
 def run(ctx: Ctx):
     sa = _sitebase.analysis(ctx)
     _sitebase.floors(ctx, sa)
-    _sitebase.report(ctx, sa, {"mapiter": "no-mapping-iteration"},
+    _sitebase.report(ctx, sa, {"mapiter": "no-mapping-iteration", "kwsplat": "hook-ignores-unknown-keys"},
                      {"probe": "probe-hygiene", "mapiter": "no-mapping-iteration"})
     # (a) configuration
     cm = ConvertersModule(ctx.src)
